@@ -13,7 +13,7 @@ use std::rc::Rc;
 pub static ENGINE: Engine = Engine {
     prop: "C06",
     level: "exploration",
-    rule: "every body T with <= N AST nodes over {X, Y, a, b, true, false, not, & | => <=>, if, exists/forall a|b, shadowing binders exists X / lfp X / gfp X, second binder lfp/gfp Y, counting >=1 <=1 =1}: the reference evaluates T on ALL points of the lattice of functions over the formula's free variables (16, or 256 with a third variable), decides monotonicity by brute force over all comparable pairs and computes all fixed, pre-fixed and post-fixed points; for monotone bodies the real `lfp X # T` / `mu` / `gfp` / `nu` must terminate within the fuel, be a fixed point, lie below every pre-fixed point (lfp) / above every post-fixed point (gfp) and equal the reference iteration. BDDEnv::fp: all 256 maps t on D={F,T,a,-a} x 4 starts with a call-counting closure: first element of the orbit fixed by t, exactly index+1 calls; cyclic orbits exhaust the fuel. distinct = distinct (body, binder spelling) texts + distinct (map, start)",
+    rule: "every body T with <= N AST nodes over {X, Y, a, b, true, false, not, & | => <=>, if, exists/forall a|b, shadowing binders exists X / lfp X / gfp X, further binders lfp/gfp Y and Z (three distinct nested binders), counting >=1 <=1 =1}: the reference evaluates T on ALL points of the lattice of functions over the formula's free variables (16, or 256 with a third variable), decides monotonicity by brute force over all comparable pairs and computes all fixed, pre-fixed and post-fixed points; for monotone bodies the real `lfp X # T` / `mu` / `gfp` / `nu` must terminate within the fuel, be a fixed point, lie below every pre-fixed point (lfp) / above every post-fixed point (gfp) and equal the reference iteration. BDDEnv::fp: all 256 maps t on D={F,T,a,-a} x 4 starts with a call-counting closure: first element of the orbit fixed by t, exactly index+1 calls; cyclic orbits exhaust the fuel. distinct = distinct (body, binder spelling) texts + distinct (map, start)",
     assumptions: &["reference transformer semantics in harness/src/refl.rs; bodies whose nested fixed points diverge in the reference are out of scope (counted)", "fuel 20000 iterations where the lattice height is <= 9"],
     max_shards: 64,
     run,
@@ -24,7 +24,7 @@ const TAG: &str = "C06";
 
 fn body_alpha(third: bool) -> Alpha {
     let s = |x: &str| x.to_string();
-    let mut leaves = vec![Ast::var("X"), Ast::var("a"), Ast::var("b"), Ast::True, Ast::False, Ast::var("Y")];
+    let mut leaves = vec![Ast::var("X"), Ast::var("a"), Ast::var("b"), Ast::True, Ast::False, Ast::var("Y"), Ast::var("Z")];
     if third {
         leaves.push(Ast::var("c"));
     }
@@ -34,7 +34,9 @@ fn body_alpha(third: bool) -> Alpha {
         bins: vec![Bin::And, Bin::Or, Bin::Implies, Bin::Iff],
         ite: true,
         quants: vec![(true, vec![s("a")]), (false, vec![s("a")]), (true, vec![s("b")]), (true, vec![s("X")]), (false, vec![s("a"), s("b")])],
-        fps: vec![(s("X"), false), (s("X"), true), (s("Y"), false), (s("Y"), true)],
+        // three distinct binder names: the top-level X, and Y, Z (so that an innermost fixed
+        // point can mention the middle binder but not the outermost one)
+        fps: vec![(s("X"), false), (s("X"), true), (s("Y"), false), (s("Y"), true), (s("Z"), false), (s("Z"), true)],
         cmps: vec![Cmp::AtLeast, Cmp::AtMost, Cmp::Exactly],
         nums: vec![s("1")],
         cv: false,
